@@ -1059,7 +1059,11 @@ class Interp(object):
         try:
             return list(it)
         except TypeError:
-            raise SymRaise('TypeError', ('not iterable: %r' % (it,),), node)
+            if it is None or isinstance(it, (int, float, bool, P, Fraction, Obj)):
+                raise SymRaise('TypeError', ('not iterable: %r' % (it,),), node)
+            # a model object (symbolic list, abstract array, contract value) that the executor cannot iterate here: a gap of the
+            # model, not a TypeError of the program
+            raise CheckerError('line %s: iteration over %s is not modelled' % (getattr(node, 'lineno', '?'), type(it).__name__))
 
     # -- expressions ----------------------------------------------------------------
     def eval(self, e, fr):
